@@ -74,7 +74,8 @@ def run (L : Limits) (s : St) (ops : List Op) : St := ops.foldl (stepE L) s
 
 inductive SockEv
   | data (k : Nat)     -- `recv(n)` returned `k` bytes (at most what was asked for; 0 = end of file)
-  | timeout            -- `socket.timeout` / EAGAIN
+  | timeout            -- `socket.timeout`
+  | eagain             -- `socket.error` with errno EAGAIN (how some socket-likes report "nothing yet")
   deriving Repr, DecidableEq, Inhabited
 
 inductive ReadResult
@@ -92,7 +93,7 @@ def readAll (need check : Bool) (n got used : Nat) : List SockEv → ReadResult
     | .data k =>
       if k = 0 then .eof got
       else readAll need check (n - min k n) (got + min k n) (used + 1) evs
-    | .timeout =>
+    | .timeout | .eagain =>      -- both set `got_timeout`: one and the same test follows
       if check ∧ got = 0 ∧ need then .needRekey got
       else readAll need check n got (used + 1) evs
 
